@@ -669,7 +669,10 @@ func mergeScrapeStatus(a, b map[uint64]*target.ScrapeStatus) map[uint64]*target.
 	for k, v := range b {
 		old := a[k]
 		if old == nil {
-			a[k] = v
+			// the merged view must not share objects with the explorer or with the replica's
+			// shards: it is overwritten below when another replica knows the target better
+			nv := *v
+			a[k] = &nv
 			continue
 		}
 
